@@ -533,6 +533,27 @@ impl<'a> Quad for Trusted<GeneralizedQuad<'a>> {
 #[derive(Clone, Copy, Debug)]
 pub struct Trusted<T>(pub T);
 
+impl<'a> Trusted<RioTriple<'a>> {
+    /// The first IRI of this triple that is not a valid absolute IRI, if any
+    /// (to be checked by the adapters of back-ends that do not validate IRIs themselves).
+    pub fn invalid_iri(&self) -> Option<&'a str> {
+        use rio_api::model::Subject;
+        let s = match self.0.subject {
+            Subject::NamedNode(n) => Some(n.iri),
+            _ => None,
+        };
+        let o = match self.0.object {
+            RioTerm::NamedNode(n) => Some(n.iri),
+            RioTerm::Literal(Literal::Typed { datatype, .. }) => Some(datatype.iri),
+            _ => None,
+        };
+        [s, Some(self.0.predicate.iri), o]
+            .into_iter()
+            .flatten()
+            .find(|iri| Iri::new(*iri).is_err())
+    }
+}
+
 impl<T> std::ops::Deref for Trusted<T> {
     type Target = T;
 
